@@ -108,6 +108,11 @@ def conc_scenarios(tier, rng):
         scs.append({"init": one, "progs": [w, [Add(S(2, 1)), Cancel(2)]]})
         scs.append({"init": one, "progs": [w, [Add(I(2, 1, 1)), Match(1)]]})
     scs.append({"init": [I(1, 1, 1)], "progs": [[Match(2)], [Add(S(2, 1)), Cancel(2)], [Cancel(1)]]})
+    # several matchers on a book that is mostly hidden quantity (replenishment in flight while the counters are near zero)
+    scs.append({"init": [I(1, 1, 3)], "progs": [[Match(1)], [Match(1)]]})
+    scs.append({"init": [I(1, 1, 3)], "progs": [[Match(1), Match(1)], [Match(2)]]})
+    scs.append({"init": [R(1, 1, 3, 0, 1, True)], "progs": [[Match(1), Match(1)], [Match(1)]]})
+    scs.append({"init": [I(1, 1, 2), R(2, 1, 2, 1, 1, True)], "progs": [[Match(2)], [Match(2)]]})
     if tier == "thorough":
         small = [Match(2), Match(4), Cancel(1), Amend(1, 1), Amend(2, 1), Add(S(4, 2))]
         for a in range(len(small)):
